@@ -501,17 +501,26 @@ def do_isolate(path):
 
     r = _guarded(f)
     if r.get("out") == "ok" and r.get("first") is not None:
-        c = r["cards"][r["first"]]
         lines = text.split("\n")
-        # line_number is 1-based; drop the card's lines
-        new = lines[:c["line"] - 1] + lines[c["line"] - 1 + c["n"]:]
-        p2 = path + ".without"
-        with open(p2, "w", newline="", encoding="utf-8", errors="surrogateescape") as fh:
-            fh.write("\n".join(new))
-        w = do_read(p2, want_summary=False)
-        wc = do_check(p2)
-        r["without"] = {k: w.get(k) for k in ("out", "cls", "func", "stack", "deliberate", "mro", "msg_empty")}
-        r["without_check"] = {k: wc.get(k) for k in ("out", "cls", "func", "stack")}
+        done = 0
+        seen = set()
+        for c in r["cards"]:
+            if not c["exc"] or done >= 3:
+                continue
+            key = (c["exc"]["cls"], c["exc"]["func"])
+            if key in seen:
+                continue
+            seen.add(key)
+            done += 1
+            # line_number is 1-based; the file without this card's lines (rule (iii) of the attribution)
+            new = lines[:c["line"] - 1] + lines[c["line"] - 1 + c["n"]:]
+            p2 = path + ".without"
+            with open(p2, "w", newline="", encoding="utf-8", errors="surrogateescape") as fh:
+                fh.write("\n".join(new))
+            w = do_read(p2, want_summary=False)
+            wc = do_check(p2)
+            c["without"] = {k: w.get(k) for k in ("out", "cls", "func")}
+            c["without_check"] = {k: wc.get(k) for k in ("out", "cls", "func")}
     return r
 
 
@@ -528,6 +537,9 @@ def worker_main():
         res = {}
         try:
             for m in req["modes"]:
+                if m in ("check", "cli") and (res.get("read") or {}).get("out") == "hang":
+                    res[m] = {"out": "skipped-after-hang"}
+                    continue
                 if m == "read":
                     res[m] = do_read(req["path"], req.get("summary", True))
                 elif m == "check":
@@ -1437,10 +1449,13 @@ def run(ctx):
     except Exception as e:
         ctx.broken_obligations.append({"obligation": "translator harness/translate_errors.py (fail closed)",
                                        "detail": f"{type(e).__name__}: {e}"[:600]})
+    marks = {}
+    marks["translate"] = round(time.time() - t_start, 1)
     if T is not None:
         ctx.prove()
     else:
         ctx.cov["obligations"] += len(vlib.property_theorems("Properties/C13.v"))
+    marks["prove"] = round(time.time() - t_start, 1)
     pool = Pool(4)
     dist = {"corruption_kinds": {}, "roles": {}, "read_outcomes": {}, "check_outcomes": {}, "failure_signatures": {},
             "oracle": {"raised_controlled": 0, "returned_and_compared": 0, "returned_definitely_malformed": 0,
@@ -1472,6 +1487,7 @@ def run(ctx):
                 extra["tables"] = {"handlers": len(T["handlers"]), "raise_rows": len(T["raise_rows"]),
                                    "prim_rows": len(T["prim_rows"]), "reachable_functions": T["reach"],
                                    "digest": T["digest"]}
+        marks["injection+xcheck"] = round(time.time() - t_start, 1)
         # ---- 4. corpus, committed findings
         corpus = []
         cdir = os.path.join(vlib.VERIF, "corpus", "C13")
@@ -1488,6 +1504,7 @@ def run(ctx):
             ctx.count_case(("corpus", c["text"]), nontrivial=True)
             for f in fails:
                 ctx.fail(prepare_failure(c, f, r, iso))
+        marks["corpus"] = round(time.time() - t_start, 1)
         # ---- 5. search: single corruptions of generated well-formed files
         budget = (45 if quick else 900)
         deadline = time.time() + budget
@@ -1566,25 +1583,26 @@ def run(ctx):
                         nviol += 1
         stats["distinct_new_signatures"] = {k: v for k, v in seen_sig.items()}
         extra["search"] = dict(stats, wall_budget_s=budget, pool_restarts=pool.restarts)
+        marks["search"] = round(time.time() - t_start, 1)
         # ---- 6. the CLI itself on a few files (real `python -m montepy -c`)
         extra["cli"] = cli_probe(ctx, pool)
         # ---- 7. committed findings still reproduce?
+        marks["cli"] = round(time.time() - t_start, 1)
+        fcases = []
         for fd in ctx.findings:
             if fd.get("status") == "open" and fd.get("replay"):
                 try:
                     with open(os.path.join(vlib.VERIF, fd["replay"])) as fh:
                         c = json.load(fh)
                     c = c.get("case", c)
-                    ev = evaluate(pool, [c], modes=("read", "check"))
-                    ok = False
-                    for f in (ev[0][2] if ev else []):
-                        rec = prepare_failure(c, f, ev[0][1], ev[0][3])
-                        if ctx.attribute(rec) == fd["id"]:
-                            ok = True
-                    fd["_reproduced"] = ok
+                    c["_fd"] = fd
+                    fcases.append(c)
                 except Exception as e:
                     fd["_reproduced"] = False
                     extra.setdefault("finding_replay_errors", []).append(f"{fd['id']}: {type(e).__name__}: {e}"[:200])
+        for c, r, fails, iso in evaluate(pool, fcases, modes=("read", "check")):
+            fd = c["_fd"]
+            fd["_reproduced"] = any(ctx.attribute(prepare_failure(c, f, r, iso)) == fd["id"] for f in fails)
     finally:
         pool.close()
     tb = vlib.KERNEL_TB + [
@@ -1607,7 +1625,8 @@ def run(ctx):
         "definitely malformed = object number not a positive integer, negative material number, dangling surface / "
         "cell / material / transform reference, duplicate cell / surface number (rules MontePy documents an error type for)",
     ]
-    extra["wall_breakdown_s"] = {"total": round(time.time() - t_start, 1)}
+    marks["total"] = round(time.time() - t_start, 1)
+    extra["wall_marks_s"] = marks
     return ctx.finish(tb, assumptions,
                       "cases = every class of the generated hierarchy injected at every routing site (normal and check "
                       "mode) + single corruptions (delete/duplicate/replace/junk/truncate/negate/zero/de-integerise/dangle/"
